@@ -262,3 +262,24 @@ def generic_state(seed: int, D: int):
     mag = 1.0 + np.mod(1.4142135623730951 * k * (seed % 89 + 3), 1.0)
     v = mag * np.exp(2j * np.pi * ph)
     return v / np.linalg.norm(v)
+
+
+def ignored_moment_class(c) -> bool:
+    """Some moment holds >= 2 ignore-tagged operations whose qubits became free at different times, and a later operation
+    that is not ignored acts on a qubit of one of them."""
+    moments = list(c)
+    for i, m in enumerate(moments):
+        ign = [op for op in m if ignored(op) and op.qubits]
+        if len(ign) < 2:
+            continue
+        free = []
+        for op in ign:
+            prev = c.prev_moment_operating_on(op.qubits, i)
+            free.append(-1 if prev is None else prev)
+        if len(set(free)) < 2:
+            continue
+        qs = set(q for op in ign for q in op.qubits)
+        for later in moments[i + 1:]:
+            if any((not ignored(op)) and qs & set(op.qubits) for op in later):
+                return True
+    return False
